@@ -156,3 +156,30 @@ pub async fn preface_accept_tcp(ctx: &ctx::Ctx, listener: &mut zksync_concurrenc
     let (_stream, ep) = preface::accept(ctx, stream).await.map_err(|e| format!("{e:#}"))?;
     Ok(format!("{ep:?}"))
 }
+
+// ---------------------------------------------------------------------------------------------
+// Pools, fetch queue, address book, connection admission.
+pub use crate::{
+    consensus::verif::VConsensus,
+    gossip::verif::{VAddrsSub, VAddrsWatch, VCompletion, VFetchQueue, VGossip},
+};
+
+/// `PoolWatch<u32, u32>`.
+pub struct VPool(crate::pool::PoolWatch<u32, u32>);
+
+impl VPool {
+    pub fn new(allowed: impl IntoIterator<Item = u32>, extra_limit: usize) -> Self {
+        Self(crate::pool::PoolWatch::new(allowed.into_iter().collect(), extra_limit))
+    }
+    pub async fn insert(&self, k: u32, v: u32) -> Result<(), String> {
+        self.0.insert(k, v).await.map_err(|e| format!("{e:#}"))
+    }
+    pub async fn remove(&self, k: u32) {
+        self.0.remove(&k).await
+    }
+    pub fn current(&self) -> Vec<(u32, u32)> {
+        let mut v: Vec<_> = self.0.current().into_iter().collect();
+        v.sort();
+        v
+    }
+}
